@@ -785,6 +785,13 @@ def cases_c10(rng, thorough):
             for _ in range(4 if thorough else 2):
                 lts = [(idx, [rng.choice(vals) for _ in range(rng.randint(1, 7))]) for idx in rng.sample([0, 1, 5], 2)]
                 cases.append(mux_case([op], G.schedule(rng, lts), feedback='end'))
+    # parameters beyond the small-integer range of the interpreter (batch sizes, take counts,
+    # lags in the hundreds), on sequences long enough to reach them
+    for op, n in ((G.op_simple('batch', n=300), 650), (G.op_simple('take', n=270), 300), (G.op_simple('lag', n=260), 280)):
+        xs = G.ints([j % 7 for j in range(n)])
+        cases.append(src_case([op], xs))
+        if thorough or op['op'] == 'batch':
+            cases.append(mux_case([op], G.schedule(rng, [(0, xs[:n // 2 + 5]), (3, xs[:20])])))
     return cases
 
 
